@@ -10,6 +10,7 @@
 import Jawk.Lemmas.RunCor
 import Jawk.Lemmas.PipelineSpec
 import Jawk.Lemmas.RunSpec
+import Jawk.Props.Tables
 namespace Jawk.C03
 open Jawk Pipe
 
